@@ -11,10 +11,10 @@ REL = [("eq", "OpEQExpression", "ORC_EQ"), ("ne", "OpNEExpression", "ORC_NE"), (
        ("le", "OpLEExpression", "ORC_LE"), ("gt", "OpGTExpression", "ORC_GT"), ("ge", "OpGEExpression", "ORC_GE")]
 from vxlib import SCALAR_STUBS as STUBS
 
-def binop(name, cls, orc, a, b, props, tier="quick", timeout=180, backends=("z3", "sat")):
-    return Inst(id="op.%s.%s%s" % (name, a, b), props=props, harness="h_binop.cpp", entry="vx_binop",
+def binop(name, cls, orc, a, b, props, tier="quick", timeout=180, backends=("z3", "sat"), novalue=False):
+    return Inst(id="op.%s.%s%s%s" % (name, a, b, ".nv" if novalue else ""), props=props, harness="h_binop.cpp", entry="vx_binop",
                 tus=CORE_TUS + ["blocc/operator/op_%s.cpp" % name],
-                defs=["VX_OP=%s" % cls, 'VX_OPH="blocc/operator/op_%s.h"' % name, "VX_A=%s" % K[a], "VX_B=%s" % K[b], "VX_ORACLE=%s" % orc],
+                defs=["VX_OP=%s" % cls, 'VX_OPH="blocc/operator/op_%s.h"' % name, "VX_A=%s" % K[a], "VX_B=%s" % K[b], "VX_ORACLE=%s" % orc] + (["VX_NOVALUE=1"] if novalue else []),
                 stubs=STUBS, unwind=3, timeout=timeout, tier=tier, backends=backends,
                 bounds="none on payloads (full int64 / binary64); operand major types fixed per instance",
                 inputs="payload a,b (int64/double/bool), null flag a,b, lvalue flag a,b")
@@ -23,8 +23,12 @@ def instances():
     out = []
     for name, cls, orc in ARITH:
         for a, b in (("i", "i"), ("i", "d"), ("d", "i"), ("d", "d")):
-            heavy = (a, b) != ("i", "i") and name in ("mul", "div", "mod")
-            out.append(binop(name, cls, orc, a, b, ["C03", "C01", "C02", "C05"], tier="thorough" if heavy else "quick", timeout=600 if heavy else 180))
+            if (a, b) == ("i", "i"):
+                out.append(binop(name, cls, orc, a, b, ["C03", "C01", "C02", "C05"]))
+            else:
+                # decimal cells: everything except the bit-exact value in the quick tier, the value (heavy float reasoning) in the thorough tier
+                out.append(binop(name, cls, orc, a, b, ["C03", "C01", "C02", "C05"], novalue=True))
+                out.append(binop(name, cls, orc, a, b, ["C03", "C01", "C02", "C05"], tier="thorough", timeout=1200))
         for a, b in (("n", "i"), ("i", "n"), ("n", "n"), ("n", "d")):
             out.append(binop(name, cls, "ORC_NONE", a, b, ["C01", "C05"], tier="thorough"))
     for name, cls, orc in BITW:
